@@ -13,7 +13,8 @@
    - fresh_socket_per_request: only replies to copies of the CURRENT request
      reach its socket (constructor st_recv / accepts: q_id (e_q e) = q_id q);
    - client_clock_strict: a reply arrives after its request was stamped, within
-     one NTP era (arrival_ok), so the two stamps differ as Time64 values;
+     2^32 s (arrival_ok; the exchange may straddle an NTP era rollover), so the
+     two stamps differ as Time64 values;
    - the server never reuses a receive stamp for this client (ex_ok; C06 gives
      this for the stamps it keeps);
    - causality: a request copy is received after it was sent, a reply copy
@@ -62,12 +63,14 @@ Theorem C03_arith_trunc : forall t0 t1 t2 t3 ctx srx stx crx theta,
 Proof. exact arith_trunc. Qed.
 Print Assumptions C03_arith_trunc.
 
-(* client_clock_strict as a fact about Time64: two stamps of one era, one later
-   than the other, have different Time64 values *)
-Theorem C03_time64_injective_in_era : forall a b,
-  a < b -> era_of a = era_of b -> time_ok a -> time_ok b -> time64_of_time a <> time64_of_time b.
-Proof. exact t64_inj_era. Qed.
-Print Assumptions C03_time64_injective_in_era.
+(* client_clock_strict as a fact about Time64: two stamps less than 2^32 s apart,
+   one later than the other, have different Time64 values - also when an NTP era
+   rollover (2036-02-07) lies between them *)
+Theorem C03_time64_injective_within_2p32_s : forall a b,
+  a < b -> b - a < secs_per_era * nanos_per_sec -> time_ok a -> time_ok b ->
+  time64_of_time a <> time64_of_time b.
+Proof. exact t64_inj_near. Qed.
+Print Assumptions C03_time64_injective_within_2p32_s.
 
 (* (b) the invariant of every reachable state: while the client's state names
    this reference, its three stored stamps are the kernel transmit stamp of one
@@ -110,7 +113,7 @@ Print Assumptions C03_bound.
    exchanges that contains the right one *)
 Theorem C03_model_meets_oracle : forall a ctx srx stx crx theta lo hi xs,
   bound_for a ctx srx stx crx theta -> lo <= ctx -> crx <= hi ->
-  In {| x_lo0 := lo; x_srx := srx; x_stx := stx; x_theta := theta; x_hi3 := hi |} xs ->
+  In {| x_lo0 := lo; x_srx := srx; x_stx := stx; x_theta := theta; x_hi3 := hi; x_fb := false |} xs ->
   C03_ok (a_off a) (a_t0 a) (a_t1 a) (a_t2 a) (a_t3 a) xs = true.
 Proof. exact bound_for_oracle. Qed.
 Print Assumptions C03_model_meets_oracle.
